@@ -56,8 +56,16 @@ class SymBool:
         return d
 
 
+class NotLinearInt(TypeError):
+    """the real code left integer arithmetic (e.g. multiplied by a float): outside what this executor models"""
+
+
 def _t(x: Any) -> Any:
-    return x.expr if isinstance(x, SymInt) else z3.IntVal(int(x))
+    if isinstance(x, SymInt):
+        return x.expr
+    if isinstance(x, bool) or not isinstance(x, int):
+        raise NotLinearInt(f"operand {x!r} of type {type(x).__name__} in integer arithmetic")
+    return z3.IntVal(x)
 
 
 class SymInt:
@@ -71,11 +79,16 @@ class SymInt:
 
     def __mul__(self, o: Any) -> "SymInt":
         if isinstance(o, SymInt):
-            raise TypeError("symbolic * symbolic is outside the linear fragment")
-        return SymInt(self.expr * int(o))
+            raise NotLinearInt("symbolic * symbolic is outside the linear fragment")
+        if isinstance(o, bool) or not isinstance(o, int):
+            raise NotLinearInt(f"multiplication by {o!r} ({type(o).__name__}) leaves integer arithmetic")
+        return SymInt(self.expr * o)
     __rmul__ = __mul__
 
     def __neg__(self) -> "SymInt": return SymInt(-self.expr)
+    def __truediv__(self, o: Any) -> Any: raise NotLinearInt("true division leaves integer arithmetic")
+    def __rtruediv__(self, o: Any) -> Any: raise NotLinearInt("true division leaves integer arithmetic")
+    def __float__(self) -> float: raise NotLinearInt("float() of a symbolic int")
     def __lt__(self, o: Any) -> SymBool: return SymBool(self.expr < _t(o))
     def __le__(self, o: Any) -> SymBool: return SymBool(self.expr <= _t(o))
     def __gt__(self, o: Any) -> SymBool: return SymBool(self.expr > _t(o))
